@@ -70,7 +70,50 @@ def virtual(script):
     return trace, res
 
 
+def real_stall():
+    """C08 on the real kernel: a raw peer sends half an A-ASSOCIATE-RQ / half a P-DATA-TF and keeps the connection open; the acceptor must
+    finish (thread gone, connection closed by it) within acse/network timeout + a generous margin."""
+    import socket, threading, time
+    from engines import ps38ref as R
+    from pynetdicom import AE, evt
+    results = []
+    for phase in ("rq", "pdata"):
+        scp = AE("ANY-SCP"); scp.acse_timeout = 1; scp.network_timeout = 1; scp.dimse_timeout = 1
+        for ab in (SC.VERIFICATION, SC.CT, SC.PR_FIND):
+            scp.add_supported_context(ab, SC.IMPLICIT)
+        srv = scp.start_server(("127.0.0.1", 11113), block=False, evt_handlers=[(evt.EVT_C_ECHO, lambda e: 0)])
+        try:
+            s = socket.create_connection(("127.0.0.1", 11113)); s.settimeout(15)
+            rq = R.ref_encode(SC.RAW_RQ)
+            if phase == "rq":
+                s.sendall(rq[:40])
+            else:
+                s.sendall(rq); s.recv(4096)
+                s.sendall(SC.dimse_bytes("echo", 1)[:9])
+            t0 = time.time(); closed = False
+            try:
+                while time.time() - t0 < 12:
+                    b = s.recv(4096)
+                    if b == b"":
+                        closed = True; break
+            except (socket.timeout, OSError):
+                pass
+            dt = time.time() - t0
+            t1 = time.time()
+            while scp.active_associations and time.time() - t1 < 5:
+                time.sleep(0.1)
+            results.append((phase, closed, round(dt, 1), len(scp.active_associations)))
+            s.close()
+        finally:
+            srv.shutdown()
+    return results
+
+
 bad = 0
+for phase, closed, dt, active in real_stall():
+    ok = closed and dt < 10 and active == 0
+    print(f"real-socket stall mid-{phase}: connection closed by the acceptor={closed} after {dt}s, active associations={active} -> {'ok' if ok else 'NOT OK'}")
+    bad += 0 if ok else 1
 for name, script in SCRIPTS.items():
     tr, rr = real(script)
     tv, rv = virtual(script)
